@@ -23,6 +23,16 @@ class AObj:
         return "<%s>" % self.name
 
 
+class HeapList(list):
+    """an instance of a user-defined subclass of list: a list that also has an instance dictionary (`xv_dict`)"""
+    xv_dict = None
+
+
+class HeapDict(ADict):
+    """an instance of a user-defined subclass of dict (OrderedDict, a config class): a dict that also has an instance dictionary"""
+    xv_dict = None
+
+
 class ClassTok:
     """a class object referred to by name (EditableModule, torch.nn.Module, a wrapper class): answers isinstance(x, <it>) through the
     abstract object's class table and, when called, records the construction like a literal constructor call"""
@@ -99,6 +109,8 @@ class KindInterp(DictInterp):
                 raise Raised("AttributeError %s.%s" % (v.name, e.attr))
             if e.attr == "__dict__" and type(v).__name__ == "Tok":
                 return ADict({}, "tensor.__dict__")
+            if e.attr == "__dict__" and isinstance(v, (HeapList, HeapDict)) and v.xv_dict is not None:
+                return v.xv_dict
         if isinstance(e, ast.BinOp) and isinstance(e.op, ast.Mult):
             l_, r_ = self.ev(e.left), self.ev(e.right)
             if isinstance(l_, list) and isinstance(r_, int) and not isinstance(r_, bool):
@@ -179,7 +191,8 @@ class KindInterp(DictInterp):
             a = self.ev(c.args[1])
             if a == "__dict__" and not isinstance(v, AObj):
                 from .dictsem import Tok as _Tok
-                return isinstance(v, _Tok)            # tensors (and other objects) have one; lists, dicts, tuples, numbers do not
+                # tensors, other objects and instances of subclasses of list / dict have one; plain lists, dicts, tuples, numbers do not
+                return isinstance(v, _Tok) or (isinstance(v, (HeapList, HeapDict)) and v.xv_dict is not None)
             if isinstance(v, AObj) and isinstance(a, str):
                 return a in v.attrs or ("%s.%s" % (ast.unparse(c.args[0]), a)) in self.env
         if fn == "id" and len(c.args) == 1 and not c.keywords:
